@@ -124,6 +124,39 @@ def reportsChange {H : Type} [DecidableEq H] (sha : Bytes → H) (stack : List F
     (recorded : H) (disk : Bytes) : Bool :=
   sha (hashedText stack disk) != recorded
 
+/-! ### the generic tree comparison (breezy/tree.py: `InterTree.file_content_matches`,
+called for every file by `InterInventoryTree._changes_from_entries` in
+breezy/bzr/inventorytree.py — the route taken when the other tree is not a
+dirstate parent of the working tree or `extra_trees` are given) -/
+
+/-- which size a "sizes differ ⇒ contents differ" shortcut in front of the
+hash comparison looks at.  `file_content_matches` has no such shortcut (`off`:
+it compares `get_file_verifier` of both sides only), and neither has the
+dirstate's `_process_entry` ("we can't just rely on the size as content
+filtering may mean differ sizes actually map to the same content").
+`filtered` = the `st_size` of `stat_and_sha1` / `get_file_with_stat`
+(`FilteredStat`), `raw` = the `st_size` of `os.lstat`, which is what
+`_comparison_data` hands to `file_content_matches` as `target_stat`. -/
+inductive SizeCheck | off | filtered | raw
+  deriving DecidableEq, Repr
+
+/-- the size of the working file that such a shortcut compares with the recorded size -/
+def targetSize (stack : List Filter) (disk : Bytes) : SizeCheck → Option Nat
+  | .off => none
+  | .filtered => some (statSize stack disk)
+  | .raw => some disk.length
+
+/-- `file_content_matches(path, path, None, target_stat)` for a source
+revision tree that records the text size `recSize` and the hash `recorded`,
+and a working file with bytes `disk` whose path gets `stack`: the optional
+size shortcut, then the comparison of the recorded hash with
+`get_file_sha1` (the hash of the read-converted file) -/
+def contentMatches {H : Type} [DecidableEq H] (sha : Bytes → H) (chk : SizeCheck)
+    (stack : List Filter) (recSize : Nat) (recorded : H) (disk : Bytes) : Bool :=
+  match targetSize stack disk chk with
+  | some n => if n != recSize then false else sha (hashedText stack disk) == recorded
+  | none => sha (hashedText stack disk) == recorded
+
 /-! ### predicates used by the theorems -/
 
 /-- no `\n` directly after a `\r` (`prevCR` = the byte before is `\r`):
